@@ -29,6 +29,150 @@ fn observe(vm: &pest_vm::Vm, rule: &str, input: &str) -> String {
     r.unwrap_or_else(|_| "Panic".to_string())
 }
 
+// ------------------------------------------------------------------------------------------------
+// generators local to C01 (kept here, not in gram.rs, so that the shared file stays untouched)
+// ------------------------------------------------------------------------------------------------
+fn bx(e: GE) -> Box<GE> { Box::new(e) }
+fn seq_of(mut v: Vec<GE>) -> GE {
+    let mut e = v.pop().expect("seq_of: empty");
+    while let Some(x) = v.pop() { e = GE::Seq(bx(x), bx(e)); }
+    e
+}
+/// the other case of a character as the Unicode tables see it (single-character mappings only), else the character itself
+fn flip_char(c: char) -> char {
+    let one = |mut it: Box<dyn Iterator<Item = char>>| { let a = it.next(); if it.next().is_none() { a } else { None } };
+    if let Some(u) = one(Box::new(c.to_uppercase())) { if u != c { return u; } }
+    if let Some(l) = one(Box::new(c.to_lowercase())) { if l != c { return l; } }
+    c
+}
+fn flip_str(s: &str) -> String { s.chars().map(flip_char).collect() }
+
+/// Case-insensitive literals over letters with a case mapping OUTSIDE ASCII (same and different UTF-8 widths, one-to-many and
+/// many-to-one mappings: é/É, ä/Ä, ω/Ω, я/Я, ß/ẞ, i/İ, k/KELVIN SIGN, s/ſ, σ/Σ/ς, ǆ/ǅ) mixed with ASCII letters and digits: alone, in
+/// ordered choices whose first alternative must fail on the other case, under greedy repetitions (span length), in skip-until
+/// stop sets, captured and re-matched exactly, in rules of every modifier.  `^"…"` folds ASCII letters only.
+fn gen_ci_grammar(r: &mut Rng) -> Vec<GRule> {
+    use GE::*;
+    let cased = ["é", "É", "ä", "Ä", "ω", "Ω", "я", "Я", "ß", "ẞ", "i", "İ", "k", "\u{212A}", "s", "ſ", "σ", "Σ", "ς", "ǆ", "ǅ", "à", "À"];
+    let ascii = ["x", "y", "L", "1", "X"];
+    let word = |r: &mut Rng| -> String {
+        let n = 1 + r.weighted(&[3, 3, 1]);
+        let mut s = String::new();
+        let mut any = false;
+        for k in 0..n {
+            if r.chance(3, 5) || (k + 1 == n && !any) { s.push_str(cased[r.weighted(&[4, 3, 4, 3, 4, 3, 2, 2, 2, 1, 1, 2, 1, 2, 1, 1, 2, 2, 1, 1, 1, 2, 2])]); any = true; }
+            else { s.push_str(ascii[r.below(5) as usize]); }
+        }
+        s
+    };
+    let asc = |r: &mut Rng| ascii[r.below(5) as usize].to_string();
+    let w1 = word(r); let w2 = word(r);
+    let atom = |r: &mut Rng| match r.weighted(&[6, 2, 1]) { 0 => Ins(word(r)), 1 => Str(word(r)), _ => Str(asc(r)) };
+    let shape = match r.below(9) {
+        0 => Ins(w1.clone()),
+        1 => Cho(bx(Seq(bx(Ins(w1.clone())), bx(Str(asc(r))))), bx(Seq(bx(Str(flip_str(&w1))), bx(Str(asc(r)))))),       // ^"ä" ~ "x" | "Ä" ~ "y"
+        2 => Rep1(bx(Ins(w1.clone()))),
+        3 => Seq(bx(Rep(bx(Ins(w1.clone())))), bx(Opt(bx(Str(flip_str(&w1)))))),
+        4 => { let n = 1 + r.below(3); let mut stop = atom(r); for _ in 1..n { stop = Cho(bx(atom(r)), bx(stop)); }
+               Seq(bx(Rep(bx(Seq(bx(Neg(bx(stop))), bx(Id("ANY".into())))))), bx(Opt(bx(Ins(w1.clone()))))) }                 // skip-until with insensitive stops
+        5 => Seq(bx(Ins(w1.clone())), bx(Ins(w2.clone()))),
+        6 => Seq(bx(Push(bx(Ins(w1.clone())))), bx(Id(["PEEK", "POP"][r.below(2) as usize].into()))),                          // the capture is matched exactly
+        7 => Seq(bx(Neg(bx(Ins(w1.clone())))), bx(Rep(bx(Id("ANY".into()))))),
+        _ => Cho(bx(Ins(w1.clone())), bx(Cho(bx(Ins(w2.clone())), bx(Id("ANY".into()))))),
+    };
+    let tys = [Ty::Normal, Ty::Atomic, Ty::Compound, Ty::NonAtomic, Ty::Silent];
+    let tail = |r: &mut Rng, e: GE| match r.below(4) { 0 => e, 1 | 2 => Seq(bx(e), bx(Id("EOI".into()))), _ => Seq(bx(e), bx(Str(asc(r)))) };
+    let mut rules = if r.chance(1, 2) {
+        vec![GRule { name: "r0".into(), ty: tys[r.below(4) as usize], e: tail(r, shape) }]
+    } else {
+        let e0 = match r.below(3) { 0 => Id("r1".into()), 1 => Rep(bx(Id("r1".into()))), _ => Seq(bx(Id("r1".into())), bx(Opt(bx(Id("r1".into()))))) };
+        vec![GRule { name: "r0".into(), ty: tys[r.below(4) as usize], e: tail(r, e0) }, GRule { name: "r1".into(), ty: tys[r.below(5) as usize], e: shape }]
+    };
+    if r.chance(1, 4) { rules.push(GRule { name: "WHITESPACE".into(), ty: Ty::Silent, e: Str(" ".into()) }); }
+    rules
+}
+
+/// Repetitions whose body succeeds on a zero-length match while changing the stack (DROP*, POP* over empty captures,
+/// (&"x" ~ DROP)*, (POP | DROP)*, a rule that drops, with + and {n,}) below two to four pushes (some of them empty captures) and
+/// followed by a reader of the stack: a repetition runs until its body FAILS, so the readers see the stack the loop left.
+/// Bodies always shrink the stack, so every loop terminates.
+fn gen_zrep_grammar(r: &mut Rng, extras: bool) -> Vec<GRule> {
+    use GE::*;
+    let lit = |r: &mut Rng| ["x", "y", "xy"][r.weighted(&[4, 4, 1])].to_string();
+    let id = |s: &str| Id(s.to_string());
+    let npush = 2 + r.weighted(&[2, 4, 3]);
+    let mut items: Vec<GE> = vec![];
+    for _ in 0..npush {
+        items.push(match r.weighted(&[7, 2, 1, 1, if extras { 1 } else { 0 }]) {
+            0 => Push(bx(Str(lit(r)))), 1 => Push(bx(Opt(bx(Str(lit(r)))))), 2 => Push(bx(Range('x', 'y'))), 3 => Push(bx(Str(String::new()))),
+            _ => PushLit(lit(r)) });
+    }
+    if r.chance(1, 4) { items.push(Str(lit(r))); }
+    let mut helper = false;
+    let body = match r.weighted(&[6, 3, 2, 1, 2, 2, 1]) {
+        0 => id("DROP"), 1 => id("POP"), 2 => Seq(bx(Pos(bx(Str(lit(r))))), bx(id("DROP"))), 3 => Seq(bx(Neg(bx(Str(lit(r))))), bx(id("DROP"))),
+        4 => Cho(bx(id("POP")), bx(id("DROP"))), 5 => { helper = true; id("r1") }, _ => Seq(bx(id("DROP")), bx(Opt(bx(id("DROP"))))),
+    };
+    items.push(match r.weighted(&[7, 2, 1]) { 0 => Rep(bx(body)), 1 => Rep1(bx(body)), _ => RepMin(bx(body), r.range(1, 2) as u32) });
+    if r.chance(1, 5) { items.push(Str(lit(r))); }
+    items.push(match r.weighted(&[6, 2, 2, 2, 1, 1, 1, 1, 1]) {
+        0 => id("PEEK_ALL"), 1 => id("POP_ALL"), 2 => Slice(0, None), 3 => Neg(bx(id("DROP"))), 4 => Seq(bx(id("DROP")), bx(id("PEEK_ALL"))),
+        5 => Slice(0, Some(1)), 6 => Slice(-1, None), 7 => id("PEEK"), _ => Seq(bx(Opt(bx(id("POP")))), bx(id("PEEK_ALL"))) });
+    match r.below(5) { 0 => {}, 1 => items.push(Rep(bx(id("ANY")))), _ => items.push(id("EOI")) }
+    let tys = [Ty::Normal, Ty::Atomic, Ty::Atomic, Ty::Compound, Ty::NonAtomic, Ty::Silent];
+    let mut rules = vec![GRule { name: "r0".into(), ty: tys[r.below(5) as usize], e: seq_of(items) }];
+    if helper { rules.push(GRule { name: "r1".into(), ty: tys[r.below(6) as usize], e: id(["DROP", "DROP", "POP"][r.below(3) as usize]) }); }
+    if r.chance(1, 4) { rules.push(GRule { name: "WHITESPACE".into(), ty: Ty::Silent, e: Str(" ".into()) }); }
+    rules
+}
+
+/// input alphabet derived from the grammar: the characters of its literals and range ends, for the characters of
+/// case-insensitive literals also their other case (non-ASCII ones first, they are the rarest in hand-picked alphabets)
+fn derived_alphabet(g: &[GRule], cap: usize) -> Vec<String> {
+    fn walk(e: &GE, strs: &mut Vec<char>, ins: &mut Vec<char>) {
+        use GE::*;
+        match e {
+            Str(s) | PushLit(s) => strs.extend(s.chars()), Ins(s) => ins.extend(s.chars()),
+            Range(a, b) => { strs.push(*a); strs.push(*b); }
+            Skip(ss) => for s in ss { strs.extend(s.chars()); },
+            Id(_) | Slice(_, _) => {}
+            Pos(x) | Neg(x) | Opt(x) | Rep(x) | Rep1(x) | RepX(x, _) | RepMin(x, _) | RepMax(x, _) | RepMM(x, _, _) | Push(x) | Tag(_, x) | Roe(x) => walk(x, strs, ins),
+            Seq(l, r) | Cho(l, r) => { walk(l, strs, ins); walk(r, strs, ins); }
+        }
+    }
+    let (mut strs, mut ins) = (vec![], vec![]);
+    for rule in g { walk(&rule.e, &mut strs, &mut ins); }
+    let mut out: Vec<char> = vec![];
+    let mut add = |c: char, out: &mut Vec<char>| if !out.contains(&c) { out.push(c); };
+    for pass in 0..2 {
+        for &c in &ins {
+            if (pass == 0) == c.is_ascii() { continue; }
+            add(c, &mut out);
+            for v in c.to_uppercase().chain(c.to_lowercase()) { add(v, &mut out); }
+            add(flip_char(c), &mut out);
+            if c.is_ascii_alphabetic() { add(if c.is_ascii_lowercase() { c.to_ascii_uppercase() } else { c.to_ascii_lowercase() }, &mut out); }
+        }
+    }
+    for &c in &strs { add(c, &mut out); add(flip_char(c), &mut out); }
+    if out.len() < 2 { add('x', &mut out); add('y', &mut out); }
+    out.truncate(cap);
+    out.iter().map(|c| c.to_string()).collect()
+}
+/// all strings over the derived alphabet up to the largest length <= maxlen that keeps the number of inputs under the budget
+fn derived_inputs(g: &[GRule], cap: usize, maxlen: usize, budget: usize) -> Vec<String> {
+    let alpha = derived_alphabet(g, cap);
+    let k = alpha.len();
+    let mut len = maxlen;
+    loop {
+        let mut tot = 1usize; let mut layer = 1usize;
+        for _ in 0..len { layer = layer.saturating_mul(k); tot = tot.saturating_add(layer); }
+        if tot <= budget || len <= 2 { break; }
+        len -= 1;
+    }
+    let refs: Vec<&str> = alpha.iter().map(|s| s.as_str()).collect();
+    all_strings(&refs, len)
+}
+
 fn main() {
     quiet_panics();
     let mode = arg(1);
@@ -36,7 +180,21 @@ fn main() {
     let stdout = io::stdout();
     let mut w = BufWriter::with_capacity(1 << 20, stdout.lock());
     let (mut n, mut grammars, mut rejected, mut oks, mut nontriv, mut panics, mut limits) = (0u64, 0u64, 0u64, 0u64, 0u64, 0u64, 0u64);
+    // escalation (C01_FOCUS=<file of grammar s-expressions, one per line>): the same generator run is repeated, but only the listed
+    // grammars (the ones on which implementation and model differed) are executed, on more and longer inputs: the mode's own
+    // alphabet two characters longer plus the alphabet derived from the grammar's literals
+    let focus: Option<std::collections::HashSet<String>> = std::env::var("C01_FOCUS").ok().filter(|p| !p.is_empty())
+        .map(|p| std::fs::read_to_string(&p).unwrap_or_default().lines().map(|l| l.trim().to_string()).filter(|l| !l.is_empty()).collect());
+    let bump = if focus.is_some() { 2 } else { 0 };
     let mut run_grammar = |g: &Vec<GRule>, inputs: &[String], w: &mut BufWriter<io::StdoutLock>, id: u64| {
+        let mut widened: Vec<String> = vec![];
+        if let Some(set) = &focus {
+            if !set.contains(&sexp_grammar(g)) { return; }
+            let mut seen: std::collections::HashSet<String> = inputs.iter().cloned().collect();
+            widened = inputs.to_vec();
+            for x in derived_inputs(g, 5, 6, 4000) { if seen.insert(x.clone()) { widened.push(x); } }
+        }
+        let inputs: &[String] = if focus.is_some() { &widened } else { inputs };
         let text = pest_grammar(g);
         pest::set_call_limit(None);
         let compiled = catch(|| pest_meta::parse_and_optimize(&text).map(|(_, r)| r).map_err(|es| es.iter().map(|e| format!("{}", e.variant.message())).collect::<Vec<_>>().join(" / ")));
@@ -66,7 +224,7 @@ fn main() {
     };
     match mode.as_str() {
         "random" => {
-            let count = arg_u64(2, 200); let mut rng = Rng::new(arg_u64(3, 0)); let maxlen = arg_u64(4, 4) as usize;
+            let count = arg_u64(2, 200); let mut rng = Rng::new(arg_u64(3, 0)); let maxlen = arg_u64(4, 4) as usize + bump;
             let stack = arg(5) != "nostack";
             let inputs = all_strings(&["x", "y", " "], maxlen);
             for id in 0..count {
@@ -77,7 +235,7 @@ fn main() {
         }
         // stack-heavy grammars: two pushes followed by bodies that pop/peek/drop under choices and repetitions
         "stack" => {
-            let count = arg_u64(2, 200); let mut rng = Rng::new(arg_u64(3, 0)); let maxlen = arg_u64(4, 5) as usize;
+            let count = arg_u64(2, 200); let mut rng = Rng::new(arg_u64(3, 0)); let maxlen = arg_u64(4, 5) as usize + bump;
             let inputs = all_strings(&["x", "y"], maxlen);
             for id in 0..count {
                 let g = gen_stack_grammar(&mut rng, extras);
@@ -86,7 +244,7 @@ fn main() {
         }
         // the skip-until idiom (optimizer: skipper; runtime: skip_until with memchr fast paths)
         "skip" => {
-            let count = arg_u64(2, 200); let mut rng = Rng::new(arg_u64(3, 0)); let maxlen = arg_u64(4, 5) as usize;
+            let count = arg_u64(2, 200); let mut rng = Rng::new(arg_u64(3, 0)); let maxlen = arg_u64(4, 5) as usize + bump;
             let inputs = all_strings(&["x", "y"], maxlen);
             for id in 0..count {
                 let g = gen_skip_grammar(&mut rng);
@@ -95,7 +253,7 @@ fn main() {
         }
         // the shapes the optimizer passes rewrite, in rules of every modifier, with trivia
         "opt" => {
-            let count = arg_u64(2, 200); let mut rng = Rng::new(arg_u64(3, 0)); let maxlen = arg_u64(4, 4) as usize;
+            let count = arg_u64(2, 200); let mut rng = Rng::new(arg_u64(3, 0)); let maxlen = arg_u64(4, 4) as usize + bump;
             let inputs = all_strings(&["x", "y", " ", "#"], maxlen);
             for id in 0..count {
                 let g = gen_opt_grammar(&mut rng);
@@ -104,12 +262,30 @@ fn main() {
         }
         // random grammars on inputs with characters of every UTF-8 width (ANY, ranges, built-ins, skip-until over wide text)
         "wide" => {
-            let count = arg_u64(2, 200); let mut rng = Rng::new(arg_u64(3, 0)); let maxlen = arg_u64(4, 3) as usize;
+            let count = arg_u64(2, 200); let mut rng = Rng::new(arg_u64(3, 0)); let maxlen = arg_u64(4, 3) as usize + bump;
             let inputs = all_strings(&["x", "é", "€", "😀", "\u{10ffff}"], maxlen);
             for id in 0..count {
                 let g = if rng.chance(1, 3) { gen_skip_grammar(&mut rng) } else {
                     let cfg = GenCfg { stack: rng.chance(1, 4), extras, counts: false, builtins: rng.chance(1, 2) };
                     gen_grammar(&mut rng, &cfg) };
+                run_grammar(&g, &inputs, &mut w, id);
+            }
+        }
+        // case-insensitive literals with non-ASCII cased letters; the input alphabet is derived from the literals (both cases)
+        "insens" => {
+            let count = arg_u64(2, 200); let mut rng = Rng::new(arg_u64(3, 0)); let maxlen = arg_u64(4, 4) as usize + bump;
+            for id in 0..count {
+                let g = gen_ci_grammar(&mut rng);
+                let inputs = derived_inputs(&g, 6, maxlen, 700);
+                run_grammar(&g, &inputs, &mut w, id);
+            }
+        }
+        // repetitions whose body matches the empty string and changes the stack, followed by readers of the stack
+        "zrep" => {
+            let count = arg_u64(2, 200); let mut rng = Rng::new(arg_u64(3, 0)); let maxlen = arg_u64(4, 5) as usize + bump;
+            let inputs = all_strings(&["x", "y"], maxlen);
+            for id in 0..count {
+                let g = gen_zrep_grammar(&mut rng, extras);
                 run_grammar(&g, &inputs, &mut w, id);
             }
         }
@@ -122,7 +298,7 @@ fn main() {
             let inputs: Vec<String> = std::env::args().skip(3).collect();
             run_grammar(&g, &inputs, &mut w, 0);
         }
-        _ => { eprintln!("usage: c01 random COUNT SEED [MAXLEN] [nostack] | stack COUNT SEED [MAXLEN] | skip COUNT SEED [MAXLEN] | opt COUNT SEED [MAXLEN] | wide COUNT SEED [MAXLEN] | one GRAMMAR INPUT.."); std::process::exit(2); }
+        _ => { eprintln!("usage: c01 random COUNT SEED [MAXLEN] [nostack] | insens COUNT SEED [MAXLEN] | zrep COUNT SEED [MAXLEN] | stack COUNT SEED [MAXLEN] | skip COUNT SEED [MAXLEN] | opt COUNT SEED [MAXLEN] | wide COUNT SEED [MAXLEN] | one GRAMMAR INPUT.."); std::process::exit(2); }
     }
     writeln!(w, "#SUMMARY\tevaluations={}\tdistinct_nontrivial={}\tgrammars={}\trejected={}\tok={}\tpanics={}\tlimits={}", n, nontriv, grammars, rejected, oks, panics, limits).unwrap();
 }
